@@ -10,7 +10,7 @@ VERIF = os.path.dirname(HERE)
 REPO = os.environ.get('VERIF_REPO', '/repo')
 
 # which properties a failing check of a suite speaks about (prefix of the check name, else the suite default)
-SUITE_DEFAULT = {'name_text': ['C17'], 'observers': ['C12'], 'txt': ['C04', 'C02'], 'roundtrip': [], 'malformed': []}
+SUITE_DEFAULT = {'name_text': ['C17'], 'observers': ['C12'], 'txt': ['C04', 'C02'], 'roundtrip': [], 'malformed': [], 'fuzz': []}
 
 def props_of(suite, check):
     head = check.split(' ')[0]
@@ -18,7 +18,7 @@ def props_of(suite, check):
     if ps:
         return ps
     if 'panic' in check or 'hang' in check:
-        return ['C01', 'C12'] if suite == 'malformed' else SUITE_DEFAULT.get(suite, [])
+        return ['C01', 'C12'] if suite in ('malformed', 'fuzz') else SUITE_DEFAULT.get(suite, [])
     return SUITE_DEFAULT.get(suite, [])
 
 def run(scratch, suites, timeout=900):
